@@ -5,7 +5,7 @@ import ast
 
 import z3
 
-from .engine import BoundMethod, ClassVal, Closure, Ctx, SDict
+from .engine import BoundMethod, ClassVal, Closure, Ctx, PairList, SDict
 from .source import ClassDef, Extern, FuncDef, ModuleRef
 from .state import PathEnd, RaiseEx, ReturnEx
 from .types import (
@@ -134,6 +134,9 @@ class CallMixin:
             c = self.repo.find_class_const(obj.cdef, name)
             if c is not None:
                 return self.wrap_def(c)
+            if name == "fields" and isinstance(obj.ty, TRec) and any("define" in d for d in obj.cdef.decorators):
+                # `Cls.fields = list(fields_dict(Cls))`: the attrs field names, read from the real class definition
+                return list(getattr(obj.ty, "ctor_params", obj.ty.fields))
             m = self.repo.find_method(obj.cdef, name)
             if isinstance(m, FuncDef):
                 if m.is_classmethod:
@@ -165,7 +168,7 @@ class CallMixin:
             if name == "args":
                 return tuple(obj.payload or ())
             raise Unsupported(f"exception attribute {name}")
-        if isinstance(obj, (SDict, tuple, list, str, bytes, int)):
+        if isinstance(obj, (SDict, PairList, tuple, list, str, bytes, int)):
             return BuiltinMethod(obj, name, obj_expr)
         raise Unsupported(f"attribute {name} of {obj!r}")
 
@@ -235,6 +238,8 @@ class CallMixin:
             if selfv is None:
                 selfv, _ = self.lookup_name("cls")
             return SuperProxy(selfv, self.class_stack[-1])
+        if isinstance(e.func, ast.Name) and e.func.id == "cast" and len(e.args) == 2:
+            return self.eval(e.args[1])  # typing.cast: the type expression is an annotation (dropped)
         f = self.eval(e.func)
         args = []
         for a in e.args:
@@ -252,7 +257,13 @@ class CallMixin:
                 if not isinstance(d, SDict):
                     raise Unsupported("**kwargs of non-constant dict")
                 for kk, (p, vv) in d.items.items():
-                    if not z3.is_true(z3.simplify(p)):
+                    ps = z3.simplify(p)
+                    if z3.is_false(ps):
+                        continue
+                    if not z3.is_true(ps):
+                        if isinstance(f, ClassVal) and isinstance(f.ty, TRec):
+                            kwargs[kk] = ("__cond__", ps, vv)  # resolved against the field default by construct()
+                            continue
                         raise Unsupported("**kwargs with conditionally present key")
                     kwargs[kk] = vv
             else:
@@ -451,6 +462,13 @@ class CallMixin:
             for n in names:
                 if n in kw:
                     v = kw[n]
+                    if isinstance(v, tuple) and len(v) == 3 and v[0] == "__cond__":
+                        if n not in ty.defaults:
+                            raise Unsupported(f"conditional keyword {n} without a default")
+                        dv = lift(ty.defaults[n], ty.fields[n])
+                        vv = self.coerce(v[2], ty.fields[n])
+                        vals[n] = SV(z3.If(v[1], vv.t, dv.t), ty.fields[n])
+                        continue
                     vals[n] = self.lift_like(v, ty.fields[n]) if isinstance(v, (tuple, list)) else v
             for n in kw:
                 if n not in names and n not in getattr(ty, "skipped", ()):
